@@ -291,6 +291,110 @@ func vrConversionRepeatable(t *testing.T) string {
 	return msg
 }
 
+// C14: a read-only directory store, and a memory store over a directory, leave the directory as it was
+func vrReadOnlyNeverWrites(t *testing.T) string {
+	for _, kind := range []string{"dir read-only", "mem over dir"} {
+		root := t.TempDir()
+		l, subj, _ := vrStaleFallback(root, "repo") // the conversion would like to write a regenerated response
+		_ = l
+		_ = os.MkdirAll(filepath.Join(root, "repo", uploadDir), 0o755) // leftover of an earlier, writable run
+		before := vrTree(root)
+		var s Store
+		if kind == "dir read-only" {
+			s = NewDir(vrConf(config.StoreDir, root, true, func(c *config.Config) { c.Storage.GC.GracePeriod = -1 }))
+		} else {
+			s = NewMem(vrConf(config.StoreMem, root, false, func(c *config.Config) { c.Storage.GC.GracePeriod = -1 }))
+		}
+		done := make(chan struct{})
+		go func() {
+			defer close(done)
+			repo, err := s.RepoGet(context.Background(), "repo")
+			if err != nil {
+				return
+			}
+			_, _ = repo.IndexGet()
+			content := []byte("new content")
+			if bc, _, err := repo.BlobCreate(BlobWithDigest(digest.Canonical.FromBytes(content))); err == nil {
+				_, _ = bc.Write(content)
+				_ = bc.Close()
+			}
+			_ = repo.IndexInsert(types.Descriptor{MediaType: types.MediaTypeOCI1Manifest, Digest: subj.Digest, Size: subj.Size, Annotations: map[string]string{types.AnnotRefName: "new"}})
+			_ = repo.IndexRemove(types.Descriptor{Digest: subj.Digest, Annotations: map[string]string{types.AnnotRefName: "v1"}})
+			_ = repo.BlobDelete(subj.Digest)
+			if rdr, err := repo.BlobGet(subj.Digest); err == nil {
+				_ = rdr.Close()
+			}
+			repo.Done()
+			if kind != "dir read-only" {
+				_ = repo.gc() // (a read-only directory store never calls gc: its callers check the switch; Close below goes that way)
+			}
+		}()
+		select {
+		case <-done:
+		case <-time.After(10 * time.Second):
+			return ""
+		}
+		_ = s.Close()
+		time.Sleep(50 * time.Millisecond) // goroutines spawned by cleanups
+		if diff := vrTreeDiff(before, vrTree(root)); diff != "" {
+			return fmt.Sprintf("%s store over a layout (stale fallback index, leftover empty %s): after IndexGet, BlobCreate, IndexInsert, IndexRemove, BlobDelete, a collection and Close the directory differs: %s", kind, uploadDir, diff)
+		}
+	}
+	return ""
+}
+
+// C16: no digest string makes the stores touch a file outside the repository directory
+func vrPathTraversal(t *testing.T) string {
+	secret := []byte("content of another repository")
+	sd := digest.Canonical.FromBytes(secret)
+	for _, kind := range []string{"dir", "mem over dir"} {
+		root := t.TempDir()
+		vrNewLayout(root, "repo").save()
+		other := vrNewLayout(root, "other")
+		other.blob(secret)
+		other.save()
+		var s Store
+		if kind == "dir" {
+			s = NewDir(vrConf(config.StoreDir, root, false, nil))
+		} else {
+			s = NewMem(vrConf(config.StoreMem, root, false, nil))
+		}
+		repo, err := s.RepoGet(context.Background(), "repo")
+		if err != nil {
+			_ = s.Close()
+			continue
+		}
+		for _, ds := range []string{
+			"sha256:x/../../../other/blobs/sha256/" + sd.Encoded(),
+			"sha256:../../../other/blobs/sha256/" + sd.Encoded(),
+			"../other/blobs/sha256:" + sd.Encoded(),
+			"sha256/../../../other/blobs/sha256:" + sd.Encoded(),
+		} {
+			d := digest.Digest(ds)
+			if rdr, err := repo.BlobGet(d); err == nil {
+				b, _ := io.ReadAll(rdr)
+				_ = rdr.Close()
+				if string(b) == string(secret) {
+					repo.Done()
+					return fmt.Sprintf("%s store: BlobGet(%q) on repository repo returns the content of a blob of repository other", kind, ds)
+				}
+			}
+			if _, err := repo.blobMeta(d, false); err == nil {
+				repo.Done()
+				return fmt.Sprintf("%s store: blobMeta(%q) on repository repo finds a file of repository other", kind, ds)
+			}
+			_ = repo.BlobDelete(d)
+			if _, err := os.Stat(filepath.Join(root, "other", blobsDir, "sha256", sd.Encoded())); err != nil {
+				repo.Done()
+				return fmt.Sprintf("%s store: BlobDelete(%q) on repository repo removed a blob of repository other", kind, ds)
+			}
+		}
+		repo.Done()
+		_ = s.Close()
+	}
+	return ""
+}
+
 func vrTree(root string) map[string]string {
 	out := map[string]string{}
 	_ = filepath.Walk(root, func(p string, fi os.FileInfo, err error) error {
@@ -334,6 +438,10 @@ func TestVerifReplay(t *testing.T) {
 	}
 	probes := []probe{
 		{"Upload.Verify", vrVerifyPinned},
+		{"fs-policy", vrReadOnlyNeverWrites},
+		{"not-read-only", vrReadOnlyNeverWrites},
+		{"mem-never-writes-fs", vrReadOnlyNeverWrites},
+		{"#fspath:", vrPathTraversal},
 		{"indexIngest#assert:no-relock", vrConversionTerminates},
 		{"indexIngest#post:already-stored", vrConversionRepeatable},
 		{".gc#loop", vrGCStarvation},
@@ -364,7 +472,8 @@ func TestVerifReplay(t *testing.T) {
 // Top-level state of inner, outer, idx: absent / untagged / tagged; artifact: absent / present (by digest, with its
 // response); entry order: as listed / reversed; policies: Untagged x ReferrersWithSubj x ReferrersDangling; grace
 // period disabled; optionally the blob of inner is deleted behind the index (entry without content).
-// 1296 repositories per store, plus 864 with the deleted blob.
+// Further dimensions: the index removed by digest again (its child stays recorded), the grace period on with
+// everything recent (then nothing a client stored may go).
 
 type vbObj struct {
 	name string
@@ -410,6 +519,8 @@ type vbCase struct {
 	reversed          bool
 	untagged, withSubj, dangling bool
 	blobless          bool // the blob of inner is deleted through the blob API before the collection (its entry stays)
+	idxRemoved        bool // the index idx is removed by digest again before the collection (inner stays recorded as its child)
+	grace             bool // the grace period is on (1h) and everything was pushed just now
 }
 
 func (c vbCase) String() string {
@@ -418,6 +529,12 @@ func (c vbCase) String() string {
 	bl := ""
 	if c.blobless {
 		bl = " blob-of-inner-deleted"
+	}
+	if c.idxRemoved {
+		bl += " idx-removed-by-digest-again"
+	}
+	if c.grace {
+		bl += " GRACE=1h(everything is recent)"
 	}
 	return fmt.Sprintf("inner=%s outer=%s idx=%s %s reversed=%v policy{Untagged=%v ReferrersWithSubj=%v ReferrersDangling=%v} grace=off%s",
 		st[c.inner], st[c.outer], st[c.idx], as[c.art], c.reversed, c.untagged, c.withSubj, c.dangling, bl)
@@ -429,6 +546,9 @@ func vbRun(c vbCase, mk func(config.Config) Store, stName string, root string) m
 	out := map[string]string{}
 	conf := vrConf(config.StoreMem, root, false, func(cf *config.Config) {
 		cf.Storage.GC.GracePeriod = -1
+		if c.grace {
+			cf.Storage.GC.GracePeriod = time.Hour
+		}
 		cf.Storage.GC.Untagged = &c.untagged
 		cf.Storage.GC.ReferrersWithSubj = &c.withSubj
 		cf.Storage.GC.ReferrersDangling = &c.dangling
@@ -517,6 +637,12 @@ func vbRun(c vbCase, mk func(config.Config) Store, stName string, root string) m
 		}
 		_ = repo.IndexInsert(d, opts...)
 	}
+	removedTop := map[string]bool{}
+	if c.idxRemoved && idx != nil && c.idx > 0 {
+		if repo.IndexRemove(types.Descriptor{Digest: idx.desc.Digest}) == nil {
+			removedTop["idx"] = true
+		}
+	}
 	gone := map[string]bool{}
 	if c.blobless && inner != nil {
 		if repo.BlobDelete(inner.desc.Digest) == nil {
@@ -529,7 +655,7 @@ func vbRun(c vbCase, mk func(config.Config) Store, stName string, root string) m
 	keepB := map[string]bool{} // retained as a blob
 	var roots []string
 	for _, in := range list {
-		if in.o == resp {
+		if in.o == resp || removedTop[in.o.name] {
 			continue
 		}
 		tagged := in.ann != nil && in.ann[types.AnnotRefName] != ""
@@ -565,6 +691,10 @@ func vbRun(c vbCase, mk func(config.Config) Store, stName string, root string) m
 	if subj != nil && !gone[subj.name] && (keepB[subj.name] || keepM[subj.name]) && !keepM["resp"] {
 		keepM["resp"], keepB["resp"], keepM["art"], keepB["art"], keepB["c"] = true, true, true, true, true
 	}
+	hadBefore := map[string]bool{}
+	for n := range w.objs {
+		hadBefore[n] = w.has(n)
+	}
 	// ---- one collection (it waits until nobody holds the repository)
 	repo.Done()
 	released = true
@@ -574,11 +704,27 @@ func vbRun(c vbCase, mk func(config.Config) Store, stName string, root string) m
 	for _, n := range []string{"c", "l", "c2", "l2", "inner", "outer", "idx", "art", "resp"} {
 		if w.objs[n] != nil && keepB[n] && !gone[n] && !w.has(n) {
 			why := "retained by the rules (tagged, or untagged collection off, or referenced by a retained manifest, or referrer of a retained subject)"
-			out["C05:removed-"+n] = fmt.Sprintf("%s store, %s: the collection removed the blob of %s, which is %s", stName, c, n, why)
+			id := "C05:removed-" + n
+			if c.idxRemoved {
+				id = "C05:after-index-removal:removed-" + n
+			}
+			out[id] = fmt.Sprintf("%s store, %s: the collection removed the blob of %s, which is %s", stName, c, n, why)
+		}
+	}
+	if c.grace {
+		// everything was uploaded or pushed within the grace period: nothing a client stored may be removed
+		// (a referrers response is generated by the server and follows the subject policy)
+		for _, n := range []string{"c", "l", "c2", "l2", "junk", "inner", "outer", "idx", "art"} {
+			if w.objs[n] != nil && !gone[n] && !w.has(n) {
+				out["C05:recent-removed-"+n] = fmt.Sprintf("%s store, %s: the collection removed %s although it was stored seconds ago, well inside the grace period", stName, c, n)
+			}
 		}
 	}
 	after, _ := repo.IndexGet()
 	for _, in := range list {
+		if removedTop[in.o.name] {
+			continue
+		}
 		if in.ann != nil && in.ann[types.AnnotRefName] != "" && !gone[in.o.name] {
 			if _, err := after.GetDesc(in.ann[types.AnnotRefName]); err != nil {
 				out["C05:untagged-"+in.o.name] = fmt.Sprintf("%s store, %s: tag %q no longer resolves after the collection", stName, c, in.ann[types.AnnotRefName])
@@ -586,7 +732,17 @@ func vbRun(c vbCase, mk func(config.Config) Store, stName string, root string) m
 		}
 	}
 	_ = before
+	if c.grace {
+		return out
+	}
 	// ---- C06: garbage is gone, no entry without content, a second pass changes nothing
+	for _, n := range []string{"inner", "outer", "idx", "art"} {
+		if o := w.objs[n]; o != nil && hadBefore[n] && !w.has(n) {
+			if _, err := after.GetDesc(o.desc.Digest.String()); err == nil {
+				out["C06:record-without-blob"] = fmt.Sprintf("%s store, %s: the collection removed the blob of %s but the index still resolves its digest (top-level entry or child record)", stName, c, n)
+			}
+		}
+	}
 	if w.has("junk") {
 		out["C06:junk-kept"] = fmt.Sprintf("%s store, %s: an unreferenced blob survives the collection although the grace period is off", stName, c)
 	}
@@ -661,6 +817,69 @@ func vbEmptyRepo(t *testing.T) map[string]string {
 	return out
 }
 
+// vbLayoutSurvives (C10, C09; directory store): a collection in a repository that still holds content (a recent blob, or
+// blobs under another algorithm) leaves a valid layout behind: oci-layout and index.json are both there, or the
+// repository is gone as a whole; and what is acknowledged afterwards is there after a restart.
+func vbLayoutSurvives(t *testing.T) map[string]string {
+	out := map[string]string{}
+	for _, algo := range []digest.Algorithm{digest.SHA256, digest.SHA512} {
+		root := t.TempDir()
+		conf := vrConf(config.StoreDir, root, false, nil) // default grace period: the uploaded blob is recent
+		s := NewDir(conf)
+		repo, err := s.RepoGet(context.Background(), "repo")
+		if err != nil {
+			continue
+		}
+		content := []byte("layer uploaded before its manifest")
+		d := algo.FromBytes(content)
+		if bc, _, err := repo.BlobCreate(BlobWithDigest(d)); err == nil {
+			_, _ = bc.Write(content)
+			_ = bc.Close()
+		}
+		repo.Done()
+		_ = repo.gc() // nothing is tagged yet: the index is empty, the blob is protected by the grace period
+		_, errL := os.Stat(filepath.Join(root, "repo", layoutFile))
+		_, errI := os.Stat(filepath.Join(root, "repo", indexFile))
+		_, errB := os.Stat(filepath.Join(root, "repo", blobsDir, algo.String(), d.Encoded()))
+		if errB == nil && (errL != nil || errI != nil) {
+			out["C10:layout-torn-by-collection"] = fmt.Sprintf("dir store, default policy: a %s blob is uploaded to a new repository and a collection runs before the manifest is pushed: the blob is kept (grace period) but oci-layout present=%v index.json present=%v - the directory is no longer a valid layout", algo, errL == nil, errI == nil)
+		}
+		// the manifest arrives, the server is restarted: is the acknowledged content still served?
+		repo2, err := s.RepoGet(context.Background(), "repo")
+		if err == nil {
+			man := vbJSON(types.Manifest{SchemaVersion: 2, MediaType: types.MediaTypeOCI1Manifest,
+				Config: types.Descriptor{MediaType: types.MediaTypeOCI1Empty, Digest: d, Size: int64(len(content))}, Layers: []types.Descriptor{}})
+			md := digest.Canonical.FromBytes(man)
+			if bc, _, err := repo2.BlobCreate(BlobWithDigest(md)); err == nil {
+				_, _ = bc.Write(man)
+				_ = bc.Close()
+			}
+			ierr := repo2.IndexInsert(types.Descriptor{MediaType: types.MediaTypeOCI1Manifest, Digest: md, Size: int64(len(man)), Annotations: map[string]string{types.AnnotRefName: "v1"}})
+			repo2.Done()
+			_ = s.Close()
+			if ierr == nil {
+				s3 := NewDir(conf)
+				if repo3, err := s3.RepoGet(context.Background(), "repo"); err == nil {
+					idx, _ := repo3.IndexGet()
+					_, gerr := idx.GetDesc("v1")
+					rdr, berr := repo3.BlobGet(md)
+					if berr == nil {
+						_ = rdr.Close()
+					}
+					repo3.Done()
+					if gerr != nil || berr != nil {
+						out["C10:acknowledged-push-lost-after-restart"] = fmt.Sprintf("dir store: %s blob uploaded, collection, manifest pushed under tag v1 (acknowledged), restart: tag resolves=%v manifest blob served=%v", algo, gerr == nil, berr == nil)
+					}
+				}
+				_ = s3.Close()
+			}
+		} else {
+			_ = s.Close()
+		}
+	}
+	return out
+}
+
 func TestVerifBounded(t *testing.T) {
 	prop := os.Getenv("VERIF_PROPERTY")
 	stores := []string{"mem"}
@@ -676,11 +895,14 @@ func TestVerifBounded(t *testing.T) {
 				for idx := 0; idx < 3; idx++ {
 					for art := 0; art < 3; art++ {
 						for _, rev := range []bool{false, true} {
-							for pol := 0; pol < 16; pol++ {
+							for pol := 0; pol < 64; pol++ {
 								if pol&8 != 0 && inner == 0 {
 									continue
 								}
-								c := vbCase{inner, outer, idx, art, rev, pol&1 != 0, pol&2 != 0, pol&4 != 0, pol&8 != 0}
+								if pol&16 != 0 && idx == 0 {
+									continue
+								}
+								c := vbCase{inner, outer, idx, art, rev, pol&1 != 0, pol&2 != 0, pol&4 != 0, pol&8 != 0, pol&16 != 0, pol&32 != 0}
 								n++
 								var res map[string]string
 								if stName == "mem" {
@@ -703,6 +925,19 @@ func TestVerifBounded(t *testing.T) {
 				}
 			}
 		}
+	}
+	if prop == "C10" || prop == "C09" {
+		fmt.Println("BOUNDED-BOUND: two scenarios on the directory store (a sha256 / a sha512 blob uploaded to a new repository, one collection before the manifest is pushed, then the manifest, then a restart): the directory stays a valid layout and the acknowledged push survives the restart; this is a scenario test, not an exploration, and decides only the interplay of collection and layout files (defect D12)")
+		for id, msg := range vbLayoutSurvives(t) {
+			id = prop + strings.TrimPrefix(id, "C10")
+			count[id]++
+			first[id] = msg
+		}
+		fmt.Printf("BOUNDED-DONE: property %s, 2 scenarios (directory store, sha256 and sha512), %d rule(s) violated\n", prop, len(first))
+		for id, msg := range first {
+			fmt.Printf("BOUNDED-FAIL: %s: %s\n", strings.TrimPrefix(id, prop+":"), msg)
+		}
+		return
 	}
 	if prop == "C06" {
 		for id, msg := range vbEmptyRepo(t) {
